@@ -23,18 +23,22 @@ pub trait Suite:
     + 'static
 {
     type R: RC;
+    /// the other group assignment
+    type Other: Suite;
     const NAME: &'static str;
     const CURVE: Bls12381;
 }
 
 impl Suite for Bls12381G1Impl {
     type R = RefG1;
+    type Other = Bls12381G2Impl;
     const NAME: &'static str = "G1Impl";
     const CURVE: Bls12381 = Bls12381::G1;
 }
 
 impl Suite for Bls12381G2Impl {
     type R = RefG2;
+    type Other = Bls12381G1Impl;
     const NAME: &'static str = "G2Impl";
     const CURVE: Bls12381 = Bls12381::G2;
 }
